@@ -177,6 +177,7 @@ def _run_history(ctx, case):
     seen_compute_since_update = False
     last = None
     computes = 0
+    bufs = None
     for step, op in enumerate(case['ops']):
         if op[0] == 'update':
             k = int(op[1])
@@ -184,7 +185,16 @@ def _run_history(ctx, case):
                 continue
             k = max(1, min(k, n - pos))
             lt, ld = case.get('layout') or ('C', 'C')
-            must(case, 'step %d: update with traces %d..%d' % (step, pos, pos + k), sut.update, gen.relayout(traces[pos:pos + k], lt), gen.relayout(data[pos:pos + k], ld))
+            if case.get('same_buffer'):
+                # one preallocated pair of arrays, refilled in place before every update (all batches have the same size)
+                if bufs is None:
+                    bufs = [np.array(traces[pos:pos + k], copy=True), np.array(data[pos:pos + k], copy=True)]
+                else:
+                    bufs[0][...] = traces[pos:pos + k]
+                    bufs[1][...] = data[pos:pos + k]
+                must(case, 'step %d: update with traces %d..%d (same buffers refilled in place)' % (step, pos, pos + k), sut.update, bufs[0], bufs[1])
+            else:
+                must(case, 'step %d: update with traces %d..%d' % (step, pos, pos + k), sut.update, gen.relayout(traces[pos:pos + k], lt), gen.relayout(data[pos:pos + k], ld))
             if seen_compute_since_update and updates > 0:
                 compute_between = True
             seen_compute_since_update = False
@@ -217,6 +227,8 @@ def _run_history(ctx, case):
     nontrivial = updates >= 2 and (compute_between or size_one)
     labels = ['kind:' + kind, 'prec:' + case['precision'], 'regime:' + case['regime'], 'tdtype:' + str(traces.dtype), 'updates:%s' % (updates if updates < 5 else '5+'),
               'word_ndim:%d' % (data.ndim - 1)]
+    if case.get('same_buffer'):
+        labels.append('same_buffer_refilled')
     if compute_between:
         labels.append('compute_between_updates')
     if size_one:
@@ -292,7 +304,19 @@ def histories(draw, kind, precision, tdtypes, large=False):
         traces = (g.normal(size=(n, s)) + offset + (data.reshape(n, -1)[:, :1].astype('float64') % 5) * 0.6).astype(tdt)
     case['traces'] = traces
     case['data'] = data.reshape((n,) + tuple(wshape)) if wshape else data.reshape(n)
-    if kind == 'mia':
+    if kind == 'mia' and regime == 'exact' and draw(st.booleans()):
+        # integer samples exactly on the edges of bins of width 49 / 98 / 103 (where k*w*(1/w) rounds below k), inside and outside the window
+        w_ = draw(st.sampled_from([49, 98, 103]))
+        info_ = np.iinfo(tdt) if np.dtype(tdt).kind in 'iu' else None
+        lo_ = 0 if (info_ is not None and info_.min == 0) else -w_
+        hi_ = min(int(info_.max), lo_ + 6 * w_) if info_ is not None else lo_ + 6 * w_
+        nb_ = max(1, (hi_ - lo_) // w_ - draw(st.integers(0, 1)))
+        on = lo_ + w_ * g.integers(0, nb_ + 2, size=(n, s))
+        off = g.integers(lo_, hi_ + 1, size=(n, s))
+        traces = np.clip(np.where(g.integers(0, 3, size=(n, s)) > 0, on, off), lo_ if info_ is None else int(info_.min), hi_).astype(tdt)
+        case['traces'] = traces
+        case['edges'] = [float(lo_ + w_ * i) for i in range(nb_ + 1)]
+    elif kind == 'mia':
         lo_e = float(np.floor(float(traces.min()))) - draw(st.integers(0, 1))
         w = draw(st.sampled_from([1.0, 2.0, 7.0, 49.0]))
         nb = max(1, int(np.ceil((float(traces.max()) - lo_e) / w)) + draw(st.integers(-1, 1)))
@@ -311,11 +335,19 @@ def histories(draw, kind, precision, tdtypes, large=False):
     # history: ordered partition of n into batches, with computes interleaved
     ops = []
     left = n
+    # sometimes every batch has the same size (then fed through one buffer refilled in place)
+    equal_k = 0
+    if not large and n >= 4 and draw(st.integers(0, 4)) == 0:
+        divs = [d_ for d_ in (1, 2, 3, 4, 5) if n % d_ == 0 and n // d_ >= 2]
+        equal_k = draw(st.sampled_from(divs)) if divs else 0
     while left > 0:
-        style = draw(st.sampled_from(['one', 'one', 'small', 'rest', 'any'])) if not large else draw(st.sampled_from(['rest', 'any', 'any', 'one', 'pow2']))
+        if equal_k:
+            style = 'equal'
+        else:
+            style = draw(st.sampled_from(['one', 'one', 'small', 'rest', 'any'])) if not large else draw(st.sampled_from(['rest', 'any', 'any', 'one', 'pow2']))
         if style == 'pow2':
             style = 'any' if left <= 16384 else 'pow2'
-        k = 1 if style == 'one' else left if style == 'rest' else 16384 if style == 'pow2' else draw(st.integers(1, min(left, 4))) if style == 'small' else draw(st.integers(1, left))
+        k = min(equal_k, left) if style == 'equal' else 1 if style == 'one' else left if style == 'rest' else 16384 if style == 'pow2' else draw(st.integers(1, min(left, 4))) if style == 'small' else draw(st.integers(1, left))
         ops.append(['update', k])
         left -= k
         c = draw(st.sampled_from(['none', 'none', 'compute', 'compute2', 'compute+compute']))
@@ -331,6 +363,8 @@ def histories(draw, kind, precision, tdtypes, large=False):
     case['ops'] = ops
     case['kernels'] = [draw(st.integers(0, 1)) for _ in range(8)] * 8
     case['layout'] = [draw(st.sampled_from(gen.LAYOUTS)), draw(st.sampled_from(gen.LAYOUTS))]
+    ups = [o for o in ops if o[0] == 'update']
+    case['same_buffer'] = len(ups) >= 2 and len(set(int(o[1]) for o in ups)) == 1 and sum(int(o[1]) for o in ups) == n
     return case
 
 
